@@ -137,8 +137,10 @@ def _eligible(fn, is_method):
                 isinstance(d, (ast.Name, ast.Attribute)) or (isinstance(d, ast.Tuple) and all(isinstance(e, ast.Constant) for e in d.elts))):
             return False
     for n in ast.walk(fn):
-        if isinstance(n, (ast.Yield, ast.YieldFrom, ast.Await, ast.Global, ast.Nonlocal, ast.AsyncFunctionDef, ast.ClassDef, ast.Try)):
+        if isinstance(n, (ast.Yield, ast.YieldFrom, ast.Await, ast.Global, ast.Nonlocal, ast.AsyncFunctionDef, ast.ClassDef)):
             return False
+        if isinstance(n, (ast.Try, ast.With, ast.For, ast.While)) and any(isinstance(x, ast.Return) for x in ast.walk(n)):
+            return False            # a return from inside a loop / try / with is not in tail position
         if isinstance(n, ast.FunctionDef) and n is not fn:
             return False
         if isinstance(n, ast.Call) and isinstance(n.func, ast.Name) and n.func.id == fn.name:
